@@ -137,4 +137,170 @@ theorem applyVestingSchedules_sound (hS : SimOK S) (aid : Nat) :
       cases h
       exact Rel.chain (hS.bank _ _ _ _ c c1 hb) (Rel.pure rfl rfl)
 
+theorem closeFixed_sound (hS : SimOK S) (aid : Nat) : Sound S (fun c => closeFixed c aid) := by
+  intro c c' h
+  simp only [closeFixed] at h ⊢
+  obtain ⟨v, hv, h⟩ := bind_eq_ok.1 h
+  obtain ⟨c1, h1, h⟩ := bind_eq_ok.1 h
+  obtain ⟨c2, h2, h⟩ := bind_eq_ok.1 h
+  rw [view_armC, hv, ok_bind]
+  exact Rel.chain (allocateSellingCoin_sound hS _ _ c c1 h1)
+    (Rel.chain (refundRemainingSellingCoin_sound hS _ c1 c2 h2)
+      (applyVestingSchedules_sound hS aid c2 c' h))
+
+theorem extendRound_sound (aid : Nat) : Sound S (fun c => extendRound c aid) := by
+  intro c c' h
+  simp only [extendRound] at h ⊢
+  obtain ⟨v, hv, h⟩ := bind_eq_ok.1 h
+  rw [view_armC, hv, ok_bind]
+  rw [pure_eq_ok] at h
+  cases h
+  exact Rel.pure rfl rfl
+
+theorem settleBatch_sound (hS : SimOK S) (aid : Nat) (mi : MInfo) :
+    Sound S (fun c => settleBatch c aid mi) := by
+  intro c c' h
+  simp only [settleBatch] at h ⊢
+  obtain ⟨v, hv, h⟩ := bind_eq_ok.1 h
+  obtain ⟨c1, h1, h⟩ := bind_eq_ok.1 h
+  obtain ⟨c2, h2, h⟩ := bind_eq_ok.1 h
+  obtain ⟨c3, h3, h⟩ := bind_eq_ok.1 h
+  obtain ⟨v3, hv3, h⟩ := bind_eq_ok.1 h
+  rw [view_armC, hv, ok_bind]
+  refine Rel.chain (allocateSellingCoin_sound hS _ _ c c1 h1)
+    (Rel.chain (refundRemainingSellingCoin_sound hS _ c1 c2 h2)
+      (Rel.chain (refundPayingCoin_sound hS _ _ c2 c3 h3) ?_))
+  rw [view_armC, hv3, ok_bind]
+  exact applyVestingSchedules_sound hS aid _ c' h
+
+theorem closeBatch_sound (hS : SimOK S) (aid : Nat) : Sound S (fun c => closeBatch c aid) := by
+  intro c c' h
+  simp only [closeBatch] at h ⊢
+  obtain ⟨v, hv, h⟩ := bind_eq_ok.1 h
+  rw [view_armC, hv, ok_bind]
+  cases hcb : calcBatch v.a v.bids v.allowed with
+  | none => rw [hcb] at h; cases h
+  | some mi =>
+    rw [hcb] at h
+    simp only [pure_eq_ok, ok_bind, setView_armC] at h ⊢
+    split at h
+    next hA => rw [if_pos hA]; exact settleBatch_sound hS aid _ _ c' h
+    next hA =>
+      rw [if_neg hA]
+      split at h
+      next hB => rw [if_pos hB]; exact extendRound_sound aid _ c' h
+      next hB =>
+        rw [if_neg hB]
+        split at h
+        next hC => rw [if_pos hC]; exact extendRound_sound aid _ c' h
+        next hC => rw [if_neg hC]; exact settleBatch_sound hS aid _ _ c' h
+
+theorem releaseLoop_sound (hS : SimOK S) (aid : Nat) (auctioneer : Acc) (n : Nat) :
+    ∀ (l : List VQ) (i : Nat), Sound S (fun c => releaseLoop c aid auctioneer n i l)
+  | [], i => by
+    intro c c' h
+    simp only [releaseLoop, pure_eq_ok] at h ⊢
+    cases h
+    exact Rel.refl c
+  | q :: rest, i => by
+    intro c c' h
+    simp only [releaseLoop] at h ⊢
+    split at h
+    next hd =>
+      rw [if_pos (show q.release ≤ (S.armC c).s.now ∧ (!q.released) = true from hd)]
+      obtain ⟨coins, hm, h⟩ := bind_eq_ok.1 h
+      obtain ⟨c1, hb, h⟩ := bind_eq_ok.1 h
+      obtain ⟨v, hv, h⟩ := bind_eq_ok.1 h
+      rw [mkCoins_armC, hm, ok_bind]
+      refine Rel.chain (hS.bank _ _ _ _ c c1 hb) ?_
+      rw [view_armC, hv, ok_bind]
+      simp only [setView_armC]
+      split at h
+      next hn =>
+        rw [if_pos hn]
+        obtain ⟨v2, hv2, h⟩ := bind_eq_ok.1 h
+        rw [view_armC, hv2, ok_bind]
+        rw [pure_eq_ok, ok_bind] at h ⊢
+        exact releaseLoop_sound hS aid auctioneer n rest (i + 1) _ c' h
+      next hn =>
+        rw [if_neg hn]
+        rw [pure_eq_ok, ok_bind] at h ⊢
+        exact releaseLoop_sound hS aid auctioneer n rest (i + 1) _ c' h
+    next hd =>
+      rw [if_neg (show ¬ (q.release ≤ (S.armC c).s.now ∧ (!q.released) = true) from hd)]
+      exact releaseLoop_sound hS aid auctioneer n rest (i + 1) c c' h
+
+theorem releaseVesting_sound (hS : SimOK S) (aid : Nat) :
+    Sound S (fun c => releaseVesting c aid) := by
+  intro c c' h
+  simp only [releaseVesting] at h ⊢
+  obtain ⟨v, hv, h⟩ := bind_eq_ok.1 h
+  rw [view_armC, hv, ok_bind]
+  exact releaseLoop_sound hS aid _ _ _ _ c c' h
+
+theorem blockStep_sound (hS : SimOK S) (aid : Nat) : Sound S (fun c => blockStep c aid) := by
+  intro c c' h
+  simp only [blockStep] at h ⊢
+  obtain ⟨v, hv, h⟩ := bind_eq_ok.1 h
+  rw [view_armC, hv, ok_bind]
+  cases hst : v.a.status with
+  | standby =>
+    simp only [hst] at h ⊢
+    split at h
+    next hd =>
+      rw [if_pos (show v.a.startTime ≤ (S.armC c).s.now from hd)]
+      rw [pure_eq_ok] at h
+      cases h
+      exact Rel.pure rfl rfl
+    next hd =>
+      rw [if_neg (show ¬ v.a.startTime ≤ (S.armC c).s.now from hd)]
+      rw [pure_eq_ok] at h
+      cases h
+      exact Rel.refl c
+  | started =>
+    simp only [hst] at h ⊢
+    cases he : v.a.endTimes.getLast? with
+    | none => rw [he] at h; cases h
+    | some e =>
+      simp only [he] at h ⊢
+      split at h
+      next hd =>
+        rw [if_pos (show e ≤ (S.armC c).s.now from hd)]
+        cases hty : v.a.type with
+        | fixed => simp only [hty] at h ⊢; exact closeFixed_sound hS aid c c' h
+        | batch => simp only [hty] at h ⊢; exact closeBatch_sound hS aid c c' h
+      next hd =>
+        rw [if_neg (show ¬ e ≤ (S.armC c).s.now from hd)]
+        rw [pure_eq_ok] at h
+        cases h
+        exact Rel.refl c
+  | vesting =>
+    simp only [hst] at h ⊢
+    exact releaseVesting_sound hS aid c c' h
+  | finished =>
+    simp only [hst, pure_eq_ok] at h ⊢
+    cases h
+    exact Rel.refl c
+  | cancelled =>
+    simp only [hst, pure_eq_ok] at h ⊢
+    cases h
+    exact Rel.refl c
+
+theorem blockLoop_sound (hS : SimOK S) : ∀ l, Sound S (fun c => blockLoop c l)
+  | [] => by
+    intro c c' h
+    simp only [blockLoop, pure_eq_ok] at h ⊢
+    cases h
+    exact Rel.refl c
+  | aid :: rest => by
+    intro c c' h
+    simp only [blockLoop] at h ⊢
+    obtain ⟨c1, h1, h⟩ := bind_eq_ok.1 h
+    exact Rel.chain (blockStep_sound hS aid c c1 h1) (blockLoop_sound hS rest c1 c' h)
+
+theorem beginBlock_sound (hS : SimOK S) (t : Int) : Sound S (fun c => beginBlock c t) := by
+  intro c c' h
+  simp only [beginBlock] at h ⊢
+  exact blockLoop_sound hS _ { c with s := { c.s with now := t } } c' h
+
 end Fundraising
